@@ -117,3 +117,8 @@ package base
 //@ func (State).Previous
 //@   pure
 //@   ensures r0 != nil
+
+// printing a stage point is a function of the stage point (fmt.Sprintf of its fields)
+//@ func (StagePoint).String
+//@   trusted
+//@   pure
